@@ -310,6 +310,35 @@ def roundtrip_docs(ctx, repo, mb, build, key, rule, loc, expect_docs=None, max_p
     return ok
 
 
+_DEFAULT_TABLES = {}
+
+
+def default_table(repo, mb, doc_id):
+    """the default constant table of a document kind as octets (the real build_constants_table, constant-evaluated), or None"""
+    if doc_id in _DEFAULT_TABLES:
+        return _DEFAULT_TABLES[doc_id]
+    out = None
+    try:
+        eci = repo.cls("motorola.mbxml", "MBXMLDocumentIdentifier")
+        mem = next((m for m in repo.enum_members(eci).values() if isinstance(m.value, tuple) and m.value and m.value[0] == doc_id), None)
+        bct = repo.find_method(mb, "build_constants_table")
+        if mem is not None and bct is not None:
+            I = mk_interp(repo)
+            res = explore(lambda st: (setattr(I, "st", st), I.call(bct, [ClassRef(mb), mem], {}))[1], max_paths=4)
+            if len(res) == 1 and res[0][1][0] == "ok":
+                v = res[0][1][1]
+                if isinstance(v, (bytes, bytearray)):
+                    out = bytes(v)
+                elif isinstance(v, ABits) and v.kind == "bytes":
+                    bs = I.simp_bits(v.items)
+                    if all(isinstance(b, F) and b.is_const for b in bs):
+                        out = bytes(int("".join(str(b.c) for b in bs[i:i + 8]), 2) for i in range(0, len(bs), 8))
+    except AnalysisError:
+        out = None
+    _DEFAULT_TABLES[doc_id] = out
+    return out
+
+
 def parse_concrete(I, repo, mb, raw):
     return I.call(repo.find_method(mb, "from_bytes"), [ClassRef(mb), raw], {})
 
@@ -388,11 +417,17 @@ def run(ctx):
             roundtrip_docs(ctx, repo, mb, build, f"capture {raw[:8].hex()}… {len(raw)} octets", "shape/capture-roundtrip", fb.loc)
         # the sibling document id that carries a constant table (id - 1): empty / 3-octet inline table
         if raw[0] % 2 == 1 and raw[0] < 0x16:
-            for tbl in (b"", b"\x05", b"\x01\x02\x03"):
+            # ... and the inline table that is octet for octet the DEFAULT table of that document kind (what a peer that always
+            # sends its table transmits): the real build_constants_table, constant-evaluated
+            dflt = default_table(repo, mb, raw[0] - 1)
+            for tbl in (b"", b"\x05", b"\x01\x02\x03") + ((dflt,) if dflt and len(dflt) < 128 and len(raw) < 128 else ()):
                 body = bytes([len(tbl)]) + tbl + raw[2:]
-                if len(body) >= 128:
+                if len(body) >= 128 and tbl is not dflt:
                     continue
-                raw2 = bytes([raw[0] - 1, len(body)]) + body
+                if len(body) >= 16384:
+                    continue
+                blen = bytes([len(body)]) if len(body) < 128 else bytes([0x80 | (len(body) >> 7), len(body) & 0x7F])
+                raw2 = bytes([raw[0] - 1]) + blen + body
 
                 def build2(I, raw2=raw2):
                     docs = parse_concrete(I, repo, mb, raw2)
